@@ -153,6 +153,8 @@ struct State {
     counters: HashMap<&'static str, u64>,
     clock_jumps: u64,
     sleep_log: Vec<(usize, i64, u64)>,
+    /// thread ids in the order in which they resumed after a simulated sleep
+    wake_log: Vec<usize>,
 }
 
 pub struct Kernel {
@@ -230,6 +232,7 @@ impl Kernel {
                 counters: HashMap::new(),
                 clock_jumps: 0,
                 sleep_log: vec![],
+                wake_log: vec![],
             }),
             done_cv: Condvar::new(),
             spawn_cv: Condvar::new(),
@@ -326,6 +329,14 @@ impl Kernel {
     pub fn sleep_log(&self, name: &str) -> Vec<(i64, u64)> {
         let st = self.lock();
         st.sleep_log.iter().filter(|(t, _, _)| st.threads[*t].name == name).map(|(_, a, d)| (*a, *d)).collect()
+    }
+
+    /// How many simulated sleeps of the threads with this name have ended with the
+    /// thread running again (it runs on from there without interruption up to
+    /// its next decision point).
+    pub fn wake_count(&self, name: &str) -> usize {
+        let st = self.lock();
+        st.wake_log.iter().filter(|t| st.threads[**t].name == name).count()
     }
 
     /// Whether a thread with this name exists and has not finished.
@@ -736,6 +747,7 @@ impl Kernel {
             self.note("sleep", &d.as_nanos().to_string());
             self.lock_synced().sleep_log.push((me, clock::now_ns(), d.as_nanos().min(u64::MAX as u128) as u64));
             self.yield_with(me, "sleep", Status::Sleeping { wake_ns: wake });
+            self.lock().wake_log.push(me);
         }
     }
 
